@@ -282,7 +282,8 @@ def run_case(cx, case, ref=None):
 def fault_text(case):
     f = case.get("fault")
     if f:
-        return " with copy.deepcopy raising %s once (its invocation number %d during the call)" % (f["deepcopy_raises"], f["nth"])
+        return " with copy.deepcopy raising %s once (at step %d of the call's copies: top-level deepcopy invocations and copies of " \
+               "Fragile data values, txedge.DeepcopyFault)" % (f["deepcopy_raises"], f["nth"])
     if case.get("allow"):
         return " under the default recursion limit (data nested up to %d deep)" % max(
             [nest_depth(x) for _, _, x, _ in case["A"] + case["B"]] + [0])
@@ -297,9 +298,9 @@ def replay_of(cx, case, rec):
                             "harness/c09_edge.py) the outcome breaks",
                        observed=rec.get("observed"))
     r["violated"] = rec["bad"]
-    r["rerun"] = "PYTHONPATH=%s:%s /venv/bin/python -m harness.c09_replay --edge <this file>   (re-runs the call and prints " \
-                 "the oracle's verdict);  ... -m harness.txedge replay <this file>   (prints what the call returns or raises)" % (
-                     common.REPO, common.VERIF)
+    r["rerun"] = "cd %s && VERIF_REPO=%s PYTHONPATH=%s:%s /venv/bin/python -m harness.c09_replay --edge <this file>   (re-runs the " \
+                 "call and prints the oracle's verdict);  ... -m harness.txedge replay <this file>   (prints what the call returns or " \
+                 "raises)" % (common.VERIF, common.REPO, common.REPO, common.VERIF)
     return r
 
 
@@ -343,6 +344,10 @@ def report(cx, case, rec, what):
 
 def to_model(cx, case, rec, wire, checks, empty, what):
     c09 = cx.c09
+    nums = [n for v in rec["va"] + rec["vb"] for n in (v[1], v[2], v[1] + v[2])]
+    if not tx.wire_ok(nums + [sum(abs(v[2]) for v in rec["va"] + rec["vb"])]):
+        cx.ck.count("edge:judged by the oracle only (numbers beyond the driver's native integers)")
+        return
     if case["kind"] == "isect":
         wire.append(common.sx([0, c09.wire_events(rec["va"]), c09.wire_events(rec["vb"])]))
     else:
@@ -404,7 +409,13 @@ ORDERS = [("asc", "asc"), ("desc", "desc"), ("asc", "desc"), ("shuffled", "shuff
 def handle(cx, case, wire, checks, empty, what, ref=None, model=True):
     """run + judge one case of the judged set; -> record"""
     ck = cx.ck
-    rec = run_case(cx, case, ref if ref is not None else (reference(cx, case["kind"], case["A"], case["B"]) if needs_ref(case) else None))
+    try:
+        rec = run_case(cx, case, ref if ref is not None else (reference(cx, case["kind"], case["A"], case["B"]) if needs_ref(case) else None))
+    except RecursionError as ex:       # a harness-side helper gave up on a deep value: not silent, not the end of the run
+        ck.count("edge:harness-could-not-judge")
+        ck.disagreement("edge streams", "the harness could not judge a %s case of %s (%s in a harness helper)" % (what, FN[case["kind"]], type(ex).__name__),
+                        {"case": [case["kind"], list(case["plan"]), len(case["A"]), len(case["B"])]})
+        return {"bad": "harness", "clause": "harness", "res": [1, 10], "va": [], "vb": [], "outcome": "not judged", "fired": None}
     ck.count("edge:%s:%s" % (what, case["kind"]))
     nontrivial = rec["res"][0] == 0 and len(rec["res"][1]) > 0
     ck.note_case(["edge", what, case["kind"], list(case["plan"]), case.get("fault"), [list(v) for v in rec["va"]], [list(v) for v in rec["vb"]]],
@@ -597,15 +608,18 @@ def stream_faults(cx, wire, checks, empty, n_random):
             nest_case(kind, ua, ub, 600, "dict", "all", "none")
             nest_case(kind, ua, ub, 600, "dict", "none", "first")
             nest_case(kind, ua, ub, 600, "mixed", "all", "all")
-    # ---- an injected one-off MemoryError at every deepcopy invocation of the call
+    # ---- an injected one-off MemoryError at every step of the call's copies: every top-level deepcopy invocation and,
+    # inside each copy, the copy of the txedge.Fragile value every event's data carries
+    def fragile(i):
+        return dict(PLAIN_POOL[i % 3], f=tx.Fragile("v"))
     for kind, (ua, ub) in layouts:
         for oa_, ob_ in (("asc", "asc"), ("desc", "shuffled")):
-            A, B = ordered(specs_of(ua, 1000, 1), oa_, rng), ordered(specs_of(ub, 1000, 2), ob_, rng)
+            A, B = ordered(norm_specs(specs_of(ua, 1000, 1, data=fragile)), oa_, rng), ordered(norm_specs(specs_of(ub, 1000, 2, data=fragile)), ob_, rng)
             ref = reference(cx, kind, A, B, count_copies=True)
             n = ref[2] or 0
-            ck.count("fault:deepcopy invocations per call=%s" % (n if n < 8 else ">=8"))
+            ck.count("fault:copy steps per call=%s" % (n if n < 12 else ">=12"))
             where = list(range(n)) if n <= 40 else sorted({0, n - 1} | {rng.randrange(n) for _ in range(10)})
-            for nth in where + [n]:             # n: one past the last invocation - the fault never fires
+            for nth in where:
                 case = {"kind": kind, "plan": ("list", "list"), "A": A, "B": B, "allow": (MemoryError,),
                         "fault": {"deepcopy_raises": "MemoryError", "nth": nth}}
                 rec = handle(cx, case, wire, checks, empty, "fault-memoryerror", ref=ref, model=False)
@@ -620,17 +634,22 @@ def stream_faults(cx, wire, checks, empty, n_random):
         else:
             A, B = c09.rand_any(rng, unit, rng.randrange(1, 5), 1), c09.rand_any(rng, unit, rng.randrange(0, 5), 2)
         if rng.random() < 0.5:
-            depth = rng.choice([rng.randrange(470, 530), rng.randrange(470, 530), rng.randrange(530, 1200), rng.randrange(100, 470)])
+            depth = rng.choice([rng.randrange(470, 530), rng.randrange(470, 530), rng.randrange(530, 901), rng.randrange(100, 470)])
             shape = rng.choice(["dict", "dict", "mixed", "list"])
             for L in (A, B) if rng.random() < 0.3 else (A,):
                 for k in rng.sample(range(len(L)), rng.randrange(1, len(L) + 1)) if L else []:
                     L[k] = (L[k][0], L[k][1], deep_data(depth, shape, "leaf%d" % k), L[k][3])
             nest_case(kind, None, None, depth, shape, None, None, A=norm_specs(A), B=norm_specs(B))
         else:
+            A = norm_specs([(t, d, dict(x or {"app": "a"}, f=tx.Fragile("v")), i) for t, d, x, i in A])
+            B = norm_specs([(t, d, dict(x or {"app": "a"}, f=tx.Fragile("v")), i) for t, d, x, i in B])
             ref = reference(cx, kind, A, B, count_copies=True)
             n = ref[2] or 0
+            if not n:
+                ck.count("fault:MemoryError: the call copies nothing")
+                continue
             case = {"kind": kind, "plan": ("list", "list"), "A": A, "B": B, "allow": (MemoryError,),
-                    "fault": {"deepcopy_raises": "MemoryError", "nth": rng.randrange(n) if n else 0}}
+                    "fault": {"deepcopy_raises": "MemoryError", "nth": rng.randrange(n)}}
             rec = handle(cx, case, wire, checks, empty, "fault-memoryerror-random", ref=ref, model=False)
             ck.count("fault:MemoryError %s: %s" % ("fired" if rec["fired"] else "not reached", rec["outcome"]))
 
@@ -652,7 +671,7 @@ def run(ck, Event, fpi, labels, wire, checks, empty, c09):
             sizes[name] = {"calls_judged": ck.evaluations - e1, "seeded_random": n, "wall_s": round(time.time() - t1, 2)}
     ck.coverage["round5"] = {"streams": sizes, "calls_judged": ck.evaluations - n0, "wall_s": round(time.time() - t0, 2),
                              "container_kinds": list(tx.ALL_KINDS), "dict_kinds": list(tx.DICT_KINDS) + ["defaultdict(int)"],
-                             "nest_depths": NEST_DEPTHS, "nest_depths_seeded_random": "100..1200, half of them 470..530",
+                             "nest_depths": NEST_DEPTHS, "nest_depths_seeded_random": "100..900, half of them 470..530",
                              "extremes_domain": "start and start+duration of every event are representable datetimes "
                                                 "(year 1 .. 9999-12-31T23:59:59.999), durations up to the whole range"}
 
